@@ -588,3 +588,147 @@ Proof.
   assert (G' : n = (mx - nak_base c) / tw) by congruence. clear G.
   destruct TW; subst tw; lia.
 Qed.
+
+(* ================= every accepted octet string ================= *)
+
+Lemma firstn_len_all (d : bytes) n : n = len d -> firstn (Z.to_nat n) d = d.
+Proof. intros ->. apply firstn_all2. unfold len. lia. Qed.
+
+(* the segment_requests setter on an object whose cached length already fits the new list *)
+Lemma nak_set_segs_id f segs s e l0 :
+  let P := {| nk_fd := f; nk_segs := segs; nk_start := s; nk_end := e |} in
+  nak_obj_valid P -> nak_len_ok P ->
+  nak_set_segs {| nk_fd := f; nk_segs := l0; nk_start := s; nk_end := e |} segs = Ok P.
+Proof.
+  intros P V L. destruct (nak_obj_flag P V) as [FL _]. destruct V as (((_ & _ & _ & D) & _) & _).
+  unfold nak_set_segs, nak_with_segs. cbn [nk_fd nk_segs nk_start nk_end]. fold P.
+  rewrite nak_calc_len_spec by exact FL. unfold nak_len_ok in L. rewrite <- L.
+  unfold nk_hdr in *. cbn [P nk_fd] in D. cbn [P nk_fd].
+  destruct (h_dlen (fd_hdr f) <=? 65535) eqn:E; [|lia].
+  unfold nak_with_fd, P, nk_conf, nk_hdr. cbn [nk_fd nk_segs nk_start nk_end].
+  destruct f as [[? ? ? ?] ?]; reflexivity.
+Qed.
+
+(* Whatever NakPdu.unpack accepts is exactly the encoding of what it returns: the buffer is the
+   layout of the decoded object (so nothing outside the PDU, and not the CRC trailer, can have
+   been folded into the values), the object is well-formed, its lengths are the buffer's. *)
+Theorem nak_unpack_inv d p : wf_bytes d -> nak_unpack d = Ok p -> nak_wf p /\ nak_obj_layout p = d.
+Proof.
+  intros W. unfold nak_unpack. destruct nak_empty_ok as (e0 & -> & S0). cbn [bind].
+  destruct (fdir_unpack d) as [f|e] eqn:UF; [|discriminate]. cbn [bind].
+  destruct (fdir_unpack_inv d f W UF) as (VF & _ & LHL & LY).
+  pose proof VF as (VH & RT).
+  destruct (hdr_valid_packet_len _ VH) as [RHL RPL].
+  destruct (hdr_verify_length_and_checksum (fd_hdr f) d) as [pl|e] eqn:UV; [|discriminate]. cbn [bind].
+  destruct (hdr_verify_accept (fd_hdr f) d pl ltac:(lia) UV) as (EPL & LPL & CRC). clear UV.
+  destruct (negb (fd_type f =? DT_NAK)) eqn:ET; [discriminate|].
+  assert (T8 : fd_type f = 8) by (unfold DT_NAK in ET; lia). clear ET.
+  destruct (len d >? pl) eqn:ES; [discriminate|]. assert (PLD : pl = len d) by lia. clear ES LPL.
+  assert (FL : flag (cf_large (h_conf (fd_hdr f)))) by apply VH.
+  assert (FC : flag (cf_crc (h_conf (fd_hdr f)))) by apply VH.
+  unfold hdr_large_file, FILE_LARGE, CRC_WITH_CRC.
+  set (c := h_conf (fd_hdr f)) in *. set (w := nak_w c).
+  assert (N : (if negb (cf_large c =? 1) then 4 else 8) = Z.of_nat w).
+  { unfold w. destruct (nak_w_cases _ FL) as [[A B] | [A B]]; rewrite A, B; reflexivity. }
+  cbv zeta. rewrite !N, !Nat2Z.id. pose proof (nak_w_pos c) as Wp. fold w in Wp.
+  set (n := Z.of_nat w) in *. set (hl := fdir_header_len f) in *.
+  set (stop := if cf_crc c =? 1 then pl - 2 else pl).
+  assert (Hn : 0 < n) by (unfold n; lia).
+  assert (Hhl : hl = hdr_header_len (fd_hdr f) + 1) by reflexivity.
+  destruct (hl + 2 * n >? stop) eqn:G; [discriminate|].
+  assert (STL : stop <= len d) by (unfold stop; destruct (cf_crc c =? 1); lia).
+  assert (L1 : length (slice d hl (hl + n)) = w) by (rewrite slice_length by lia; lia).
+  assert (L2 : length (slice d (hl + n) (hl + n + n)) = w) by (rewrite slice_length by lia; lia).
+  rewrite (struct_unpack_ok w _ L1). cbn [bind]. rewrite (struct_unpack_ok w _ L2). cbn [bind].
+  set (s := be_decode (slice d hl (hl + n))). set (e := be_decode (slice d (hl + n) (hl + n + n))).
+  unfold nak_set_end, nak_set_start, nak_with_fd. cbn [nk_fd nk_segs nk_start nk_end]. rewrite S0.
+  (* the common conclusion, for the decoded list of segment requests *)
+  assert (FIN : forall segs, Forall (pair_ok w) segs -> segs_layout w segs = slice d (hl + n + n) stop ->
+            stop = hl + n + n + 2 * n * Z.of_nat (length segs) ->
+            let P := {| nk_fd := f; nk_segs := segs; nk_start := s; nk_end := e |} in
+            nak_wf P /\ nak_obj_layout P = d).
+  { intros segs FS LS ST P.
+    assert (DL : h_dlen (fd_hdr f) = nak_plen c (nak_params P) + 1).
+    { unfold nak_plen. cbn [nak_params np_segs P nk_segs]. fold w n.
+      unfold hdr_packet_len in EPL. unfold hl, fdir_header_len in ST. unfold stop in ST.
+      destruct (cf_crc c =? 1); lia. }
+    assert (OV : nak_obj_valid P).
+    { unfold nak_obj_valid, P, nk_conf, nk_hdr. cbn [nk_fd nk_segs nk_start nk_end]. fold c w.
+      split; [exact VF|]. split; [|exact FS]. split; cbn [fst snd]; unfold in_width.
+      - pose proof (be_decode_range _ (wf_bytes_slice d hl (hl + n) W)) as B. rewrite L1 in B. exact B.
+      - pose proof (be_decode_range _ (wf_bytes_slice d (hl + n) (hl + n + n) W)) as B. rewrite L2 in B. exact B. }
+    split; [split; [exact OV|split; [exact DL|exact T8]]|].
+    assert (PRE : nak_obj_pre P = firstn (Z.to_nat stop) d).
+    { unfold nak_obj_pre, pair_layout, P, nk_conf, nk_hdr. cbn [nk_fd nk_segs nk_start nk_end fst snd]. fold c w.
+      unfold s, e.
+      pose proof (be_encode_decode _ (wf_bytes_slice d hl (hl + n) W)) as B1. rewrite L1 in B1. rewrite B1.
+      pose proof (be_encode_decode _ (wf_bytes_slice d (hl + n) (hl + n + n) W)) as B2. rewrite L2 in B2. rewrite B2.
+      rewrite LS, LY. fold hl. rewrite <- slice_0_firstn.
+      rewrite <- app_assoc. rewrite (slice_adjacent d (hl + n)) by lia.
+      rewrite (slice_adjacent d hl) by lia. rewrite slice_adjacent by lia. apply slice_0_firstn. }
+    unfold nak_obj_layout. rewrite PRE. unfold P, nk_conf, nk_hdr. cbn [nk_fd]. fold c.
+    unfold stop in *. destruct FC as [C0 | C1].
+    - rewrite C0 in *. cbn [Z.eqb] in *. apply firstn_len_all. exact PLD.
+    - rewrite C1 in *. cbn [Z.eqb Pos.eqb] in *.
+      rewrite <- (firstn_skipn (Z.to_nat (pl - 2)) d) at 3. f_equal. symmetry.
+      apply crc_trailer_unique.
+      + apply wf_bytes_firstn, W.
+      + apply wf_bytes_skipn, W.
+      + rewrite skipn_length. unfold len in PLD. lia.
+      + rewrite firstn_skipn. rewrite <- (firstn_len_all d pl PLD). apply CRC. reflexivity. }
+  destruct (hl + n + n <? stop) eqn:G2.
+  - destruct (negb ((stop - (hl + n + n)) mod (n * 2) =? 0)) eqn:M; [discriminate|].
+    assert (M0 : (stop - (hl + n + n)) mod (n * 2) = 0) by lia. clear M.
+    set (k := Z.to_nat ((stop - (hl + n + n)) / (n * 2))).
+    assert (ST : stop = hl + n + n + 2 * n * Z.of_nat k).
+    { unfold k. rewrite Z2Nat.id by (apply Z.div_pos; lia).
+      pose proof (Z.div_mod (stop - (hl + n + n)) (n * 2) ltac:(lia)) as DM. rewrite M0 in DM. lia. }
+    destruct (nak_unpack_segs_spec d w Wp W k (hl + n + n) stop [] (length d + 1)) as (segs & R & LS & FS & LYS);
+      try assumption; try lia.
+    { assert (Z.of_nat k <= len d) by nia. unfold len in *. lia. }
+    fold n in R. rewrite R. cbn [bind app].
+    intros X. destruct (FIN segs FS LYS ltac:(rewrite LS; exact ST)) as (WF & LAY). cbv zeta in WF, LAY.
+    rewrite (nak_set_segs_id f segs s e []) in X by apply WF. injection X as <-.
+    split; [exact WF|exact LAY].
+  - intros X. injection X as <-.
+    apply (FIN []); [constructor| |cbn [length]; lia].
+    assert (stop = hl + n + n) as -> by lia. rewrite slice_empty. reflexivity.
+Qed.
+
+(* consequences: identical re-pack, lengths, CRC *)
+Theorem nak_repack d p : wf_bytes d -> nak_unpack d = Ok p ->
+  nak_pack p = Ok d /\ nak_packet_len p = len d /\
+  h_dlen (nk_hdr p) = len d - hdr_header_len (nk_hdr p) /\ nak_unpack d = Ok p /\ nak_eqb p p = true.
+Proof.
+  intros W U. destruct (nak_unpack_inv d p W U) as ((V & L & T) & LAY).
+  split; [rewrite nak_pack_obj by exact V; rewrite LAY; reflexivity|].
+  pose proof (nak_packet_len_obj p V L) as PL. rewrite LAY in PL.
+  split; [exact PL|]. split; [|split; [exact U|apply nak_eqb_refl]].
+  unfold nak_packet_len, fdir_packet_len, hdr_packet_len in PL. unfold nk_hdr. lia.
+Qed.
+
+(* C04 hook: an accepted CRC-flagged NAK PDU has CRC-16 residue 0 over the whole buffer *)
+Theorem nak_accept_needs_crc0 d p : wf_bytes d -> nak_unpack d = Ok p ->
+  cf_crc (nk_conf p) = 1 -> crc16 d = 0.
+Proof.
+  intros W U C. destruct (nak_unpack_inv d p W U) as ((V & _) & LAY).
+  rewrite <- LAY. unfold nak_obj_layout. rewrite C. cbn [Z.eqb Pos.eqb].
+  apply crc_residue, nak_obj_pre_wf, V.
+Qed.
+
+(* C09: the decoder reads exactly the declared packet: the reported length is the buffer length *)
+Theorem nak_no_overread d p : wf_bytes d -> nak_unpack d = Ok p ->
+  nak_unpack (firstn (Z.to_nat (nak_packet_len p)) d) = Ok p /\ nak_packet_len p = len d.
+Proof.
+  intros W U. destruct (nak_repack d p W U) as (_ & PL & _). split; [|exact PL].
+  rewrite firstn_len_all by exact PL. exact U.
+Qed.
+
+(* C09: pack p ++ s is decoded as pack p (s empty) or refused with a documented error *)
+Theorem nak_suffix c q s : nak_valid c q -> wf_bytes s ->
+  nak_unpack (nak_layout c q ++ s) = nak_unpack (nak_layout c q) \/
+  exists e, nak_unpack (nak_layout c q ++ s) = Err e /\ documented e = true.
+Proof.
+  intros V W. destruct s as [|x s]; [left; rewrite app_nil_r; reflexivity|right].
+  exists EValue. split; [apply nak_unpack_pack_surplus; [exact V|exact W|discriminate]|reflexivity].
+Qed.
